@@ -107,6 +107,9 @@ MUTANTS = [
     ("trace-id-arithmetic", {"C19": "A12.cmp"}, [(TR, "                top_trace = trace\n", "                top_trace = trace + 0\n")]),
     ("trace-id-compared-with-constant", {"C19": "A12.cmp"}, [(TR, "        if isbox(end_box) and end_box._trace == start_box._trace:", "        if isbox(end_box) and end_box._trace == start_box._trace and end_box._trace < 64:")]),
     ("trace-returns-box", {"C06": "A13.unbox", "C08": "A13.unbox", "C14": "A13.unbox"}, [(TR, "            return end_box._value, end_box._node", "            return end_box, end_box._node")]),
+    ("new-trace-yields-before-increment", {"C08": "A12.bal"}, [(TR, "        self.top += 1\n        yield self.top\n        self.top -= 1", "        yield self.top\n        self.top += 1\n        self.top -= 1")]),
+    ("new-trace-yields-stale-local", {"C08": "A12.bal"}, [(TR, "        self.top += 1\n        yield self.top\n        self.top -= 1", "        t = self.top\n        self.top += 1\n        yield t\n        self.top -= 1")]),
+    ("new-trace-decrement-conditional", {"C08": "A12.bal", "C19": "A12.bal"}, [(TR, "        self.top += 1\n        yield self.top\n        self.top -= 1", "        self.top += 1\n        yield self.top\n        if self.top > 1:\n            self.top -= 1")]),
     ("wrapper-unboxes-recursively", {"C08": "A13.unbox", "C06": "A13.unbox"}, [(TR, "argvals = subvals(args, [(argnum, box._value) for argnum, box in boxed_args])", "argvals = subvals(args, [(argnum, getval(box)) for argnum, box in boxed_args])")]),
     ("wrapper-calls-raw-on-partially-unboxed", {"C08": "A13.unbox", "C03": "A13.unbox", "C17": "A13.unbox"}, [(TR, "            ans = f_wrapped(*argvals, **kwargs)", "            ans = f_raw(*argvals, **kwargs)")]),
     ("notrace-branch-calls-raw", {"C14": "A13.unbox", "C08": "A13.unbox"}, [(TR, "                return f_wrapped(*argvals, **kwargs)", "                return f_raw(*argvals, **kwargs)")]),
@@ -222,6 +225,8 @@ BENIGN = [
     ("match-complex-inlined-as-helper-call", [(NV, "defvjp(anp.real, lambda ans, x: lambda g: match_complex(x, g))", "def _to_kind_of(x):\n    return lambda g: match_complex(x, g)\n\n\ndefvjp(anp.real, lambda ans, x: _to_kind_of(x))")]),
     ("extra-guard-in-jvp", [(NJ, "def fwd_grad_sort(g, ans, x, axis=-1, kind=\"quicksort\", order=None):\n", "def fwd_grad_sort(g, ans, x, axis=-1, kind=\"quicksort\", order=None):\n    if order is not None:\n        raise NotImplementedError(\"structured sort order\")\n")]),
     ("add-outgrads-sparse-first", [(CO, "    else:\n        if sparse:\n            return sparse_add(vspace(g), None, g), True\n        else:\n            return g, False", "    else:\n        if not sparse:\n            return g, False\n        return sparse_add(vspace(g), None, g), True")]),
+    ("new-trace-explicit-assignments", [(TR, "        self.top += 1\n        yield self.top\n        self.top -= 1", "        self.top = self.top + 1\n        yield self.top\n        self.top = self.top - 1")]),
+    ("new-trace-local-id", [(TR, "        self.top += 1\n        yield self.top\n        self.top -= 1", "        trace_id = self.top + 1\n        self.top = trace_id\n        yield trace_id\n        self.top = trace_id - 1")]),
     ("new-trace-local-copy", [(TR, "        self.top += 1\n        yield self.top\n        self.top -= 1", "        self.top += 1\n        yield self.top\n        self.top -= 1\n        # balanced")]),
     ("toposort-decrement-then-test", [("autograd/util.py", "            if child_counts[parent] == 1:\n                childless_nodes.append(parent)\n            else:\n                child_counts[parent] -= 1", "            child_counts[parent] -= 1\n            if child_counts[parent] == 0:\n                childless_nodes.append(parent)")]),
     ("toposort-not-in-first", [("autograd/util.py", "        if node in child_counts:\n            child_counts[node] += 1\n        else:\n            child_counts[node] = 1\n            stack.extend(parents(node))", "        if node not in child_counts:\n            child_counts[node] = 1\n            stack.extend(parents(node))\n        else:\n            child_counts[node] += 1")]),
